@@ -95,10 +95,38 @@ func VerifyDSWithWork(
 	return verifyDSWithWork(keyMap, parentDSSet, work)
 }
 
+// VerifyDSKeysWithWork is VerifyDSWithWork that also returns the DNSKEYs the
+// DS set authenticates. The DNSKEY RRset is the one RRset whose signature has
+// to come from such a key (RFC 4035 §5.2): the other keys in it are vouched
+// for by that signature and by nothing else, so a signature made with one of
+// them proves only that whoever wrote the RRset also holds a key they put in
+// it. Every supported DS is evaluated — a zone in the middle of a rollover
+// signs with one secure entry point and publishes the DS of another.
+func VerifyDSKeysWithWork(
+	keyMap map[uint16][]*dns.DNSKEY,
+	parentDSSet []dns.RR,
+	work DSDigestWork,
+) (map[uint16][]*dns.DNSKEY, bool, error) {
+	matched := make(map[uint16][]*dns.DNSKEY)
+	unsupportedOnly, err := verifyDSCollectWithWork(keyMap, parentDSSet, work, matched)
+	return matched, unsupportedOnly, err
+}
+
 func verifyDSWithWork(
 	keyMap map[uint16][]*dns.DNSKEY,
 	parentDSSet []dns.RR,
 	work DSDigestWork,
+) (bool, error) {
+	return verifyDSCollectWithWork(keyMap, parentDSSet, work, nil)
+}
+
+// verifyDSCollectWithWork stops at the first authenticated key unless the
+// caller wants all of them in collect.
+func verifyDSCollectWithWork(
+	keyMap map[uint16][]*dns.DNSKEY,
+	parentDSSet []dns.RR,
+	work DSDigestWork,
+	collect map[uint16][]*dns.DNSKEY,
 ) (bool, error) {
 	dsRecords := uniqueSortedDSRecords(parentDSSet)
 	total := len(dsRecords)
@@ -154,13 +182,27 @@ func verifyDSWithWork(
 			candidateUsed++
 			if ok {
 				matched = true
-				break
+				if collect == nil {
+					break
+				}
+				tag := parentDS.KeyTag
+				known := false
+				for _, k := range collect[tag] {
+					known = known || k == ksk
+				}
+				if !known {
+					collect[tag] = append(collect[tag], ksk)
+				}
+				continue
 			}
 			lastErr = ErrMismatchingDS
 		}
-		if matched {
+		if matched && collect == nil {
 			return false, nil
 		}
+	}
+	if len(collect) > 0 {
+		return false, nil
 	}
 
 	if total == 0 {
